@@ -135,6 +135,13 @@ Theorem C16_cutoff_refuted : ~ C16_full_statement.
 Proof. exact full_exactness_refuted. Qed.
 Print Assumptions C16_cutoff_refuted.
 
+(* The constant 100 decides nothing else: every outcome other than "too many
+   iterations" is the outcome under every larger cut-off. *)
+Theorem C16_cutoff_only : forall (cut d : nat) (pi : oracle) (P : program) (r : rres final),
+  resolve_cut cut pi P = r -> r <> RErr ETooManyIter -> resolve_cut (cut + d) pi P = r.
+Proof. exact cutoff_only. Qed.
+Print Assumptions C16_cutoff_only.
+
 Theorem C16_cutoff_witness :
   wf (chain_prog 101) = true /\ sat (chain_prog 101) /\
   resolve (seed_oracle 0) (chain_prog 101) = RErr ETooManyIter /\
